@@ -8,7 +8,7 @@
    < 256) is what "a byte string" means in the model.
    That the accessors of a decoded filter do not panic and return the unique split is C17 (filter_ok
    is exactly the premise of C17_accessors_split through C17_reparse). *)
-From MQ Require Import Proofs.Tactics Model.Valid Model.Stream Proofs.TopicFilterEq Proofs.DecInv Proofs.Totality Proofs.DecAccessors.
+From MQ Require Import Proofs.Tactics Model.Valid Model.Stream Proofs.TopicFilterEq Proofs.DecInv Proofs.Totality Proofs.DecAccessors Proofs.DecParts.
 Open Scope N_scope.
 
 Theorem C12_v3_async : forall prof t d p d', bytes_okb d = true -> V3.decode_async prof t d = ROk p d' -> I3.types_inv p = true.
@@ -85,3 +85,18 @@ Example ex_C12 :
      [130; 18; 0; 5; 2; 11; 5; 0; 10; 36;115;104;97;114;101;47;103;47;116; 1] = ROk p r
      /\ I5.types_inv p = true.
 Proof. eexists. eexists. split; [vm_compute; reflexivity | vm_compute; reflexivity]. Qed.
+
+(* the per-part decoder of a will is a public entry point of its own (LastWill::decode_async): whoever calls it, for
+   whatever QoS and retain flag a CONNECT can carry, the will it returns satisfies the will's invariants (topic a valid
+   topic name, text fields valid UTF-8, properties only those a will has, a payload flagged as UTF-8 valid UTF-8) *)
+Theorem C12_v5_will_decode_direct : forall qos retain t d w d', qos < 3 -> bytes_okb d = true ->
+  V5.will_decode qos retain t d = ROk w d' -> I5.will_inv w = true.
+Proof. exact DecParts.v5_will_decode_direct_inv. Qed.
+Print Assumptions C12_v5_will_decode_direct.
+
+Example ex_C12_will_direct :
+  exists w r, V5.will_decode 1 false TEof [2; 1; 1; 0; 1; 116; 0; 2; 195; 169] = ROk w r /\ I5.will_inv w = true.
+Proof. eexists. eexists. split; [vm_compute; reflexivity | vm_compute; reflexivity]. Qed.
+Example ex_C12_will_direct_rejects :
+  V5.will_decode 1 false TEof [2; 1; 1; 0; 1; 116; 0; 1; 195] = RErr InvalidPayloadFormat.
+Proof. vm_compute. reflexivity. Qed.
